@@ -626,7 +626,8 @@ def stale_variant(rng, spec, of_type=None):
 
 
 def coq_stale_case(spec, spec2, built):
-    tgts = cl("(%s, %s)" % (cs(t.tname), eg.coq_flags(t.flags)) for t in spec.targets)
+    tgts = cl(["(%s, %s)" % (cs(t.tname), eg.coq_flags(t.flags)) for t in spec.targets] +
+              ["(%s, %s)" % (cs(U), eg.coq_flags(fl)) for U, fl in getattr(spec, "extra_generated", [])])
     return "{| s_pkg := %s; s_targets := %s; s_pkg2 := %s; s_shimmed := true; s_built := %s |}" % (
         eg.coq_pkg(spec), tgts, eg.coq_pkg(spec2), cb(built))
 
@@ -757,8 +758,8 @@ GUARD_ERR = re.compile(r"\.shootenum\S*\.go:\d+:\d+: (invalid argument: index .*
 def declared_changed(spec, spec2):
     """has the value of a constant that was declared at generation time changed (or is it gone)?"""
     env2 = {n: v for n, v, _ in spec2.const_env()}
-    for t in spec.targets:
-        for n, v in spec.declared(t.tname):
+    for T in [t.tname for t in spec.targets] + [U for U, _ in getattr(spec, "extra_generated", [])]:
+        for n, v in spec.declared(T):
             if env2.get(n) != v:
                 return True
     return False
